@@ -242,6 +242,22 @@ theorem dangling_type_byte (toc : Toc) (data : List UInt8) (v : LVar) (vs : List
     fill (some toc) true data (v :: vs) = .ok (data ++ [UInt8.ofNat (typeByte v)], some (v :: vs)) := by
   rw [fill_cons toc data v vs hg, if_neg (by omega)]
 
+/-- Legacy protocol (V1, outside the property's "current protocol" clause; modelled for completeness): the
+create loop puts (CREATE, id) and then *all* variables as (logType, id8) into ONE message — there is no size
+test in this branch, so more than 14 variables exceed the 30-byte limit (observation, legacy firmware only). -/
+theorem create_v1_single_message (toc : Toc) (id : Nat) (hid : id < 256) (vars : List LVar)
+    (hg : ∀ v ∈ vars, GoodVar toc v ∧ identOf toc v < 256) :
+    createLoop (some toc) false id Gen.C05.cmdAppend (vars.length + 1) Gen.C05.cmdCreate vars =
+      ([.tx ([UInt8.ofNat Gen.C05.cmdCreate, UInt8.ofNat id] ++ vars.flatMap (encV1 toc)) [Gen.C05.cmdCreate, id]], none) := by
+  unfold createLoop
+  rw [bytesOf_pair _ _ (by decide) hid]
+  simp only [fill_v1 toc vars _ hg]
+
+/-- `LogVariable.__init__` only builds variables whose fetch and stored types are in the type table
+(this is the `VarsWF` hypothesis of `accept_iff`). -/
+theorem logvariable_types_valid {n : Nat} {f s : String} {b : Bool} {a : Nat} {v : LVar} (h : mkVar n f b s a = .ok v) :
+    (typeRow? v.fetch).isSome = true ∧ (typeRow? v.stored).isSome = true := mkVar_wf h
+
 /-! ## Clause 3: every log data packet decodes to the timestamp and values the device encoded -/
 
 /-- For a block whose variables are `items.map (·.1)` (distinct names), every 24-bit timestamp and all
@@ -432,5 +448,15 @@ def exConf2 : Conf := { period := 10, variables := [⟨0, 1, 1, true, 0⟩] }
 def exSt2 : St := { confs := [exConf2], link := true, toc := some [⟨0, 0, "uint8_t"⟩], useV2 := true }
 example : popsOf 0 (run exSt2 exSession).2 = [.sample 1 [(0, .int 7)] 0] ∧
     putsOf 0 (run exSt2 exSession).2 = [.sample 1 [(0, .int 7)] 0, .sample 2 [(0, .int 9)] 0, .disc] := by decide
+
+/-- Observation (outside the wording of the property, see docs/C05.md): `start()` does not look at `valid`.
+A configuration that was accepted once and whose re-add is then REJECTED (here: 26 more one-byte variables
+were added, payload 27 > 26) is marked invalid but still transmits create/append messages with its old id
+when started. -/
+example :
+    let ops := [Op.addConfig 0] ++ List.replicate 26 (Op.addVar 0 0 "uint8_t") ++ [Op.addConfig 0, Op.start 0]
+    ((run exSt2 ops).1.conf? 0).map (·.valid) = some false ∧
+    ((run exSt2 ops).2.filter (fun o => match o with | .tx _ _ => true | _ => false)).length = 3 := by
+  decide
 
 end CfVerif.C05
